@@ -33,7 +33,7 @@ type ON = *string
 // Coin in the model's vocabulary. D is a denom class:
 //
 //	0 ""  (absent, invalid)   1 "stake" (held by everybody, a registered token)
-//	2 "tcoin" (valid, nobody holds it)   3 "!bad" (invalid characters)
+//	2 "tcoin" (valid, nobody holds it)   3 "!bad" (invalid characters)   4 "btc" (valid, held by everybody)
 //	10 "htltbnb"  11 "htltinc" (htlc asset denoms)   12 "htlt!x" (htlc prefix, invalid characters)
 type Coin struct {
 	D int
@@ -66,6 +66,8 @@ func denomStr(d int) string {
 		return "tcoin"
 	case 3:
 		return "!bad"
+	case 4:
+		return "btc" // valid, held by everybody, not the bond denom
 	case 10:
 		return "htltbnb"
 	case 11:
@@ -77,7 +79,7 @@ func denomStr(d int) string {
 }
 
 func denomClass(s string) int {
-	for _, d := range []int{0, 1, 2, 3, 10, 11, 12} {
+	for _, d := range []int{0, 1, 2, 3, 4, 10, 11, 12} {
 		if denomStr(d) == s {
 			return d
 		}
